@@ -194,6 +194,38 @@ pub fn run_c12<C: NatCtx>(v: &mut Env<C>) {
             v.h.check(r == Out::Ok(nu(x)), || format!("plaintext {:x} does not round-trip on {}", x, tok));
         }
     }
+    if !v.small {
+        // scalar wire types on integers with a special machine representation: every byte length, zero limbs,
+        // single bits (plaintexts and exponents: any value in range; elements: squares, hence members)
+        let (p, q) = (v.p.clone(), v.q.clone());
+        let mut seen_x = std::collections::HashMap::new();
+        for x in crate::ctxs::structured_values(&p, &mut v.h.rng, 1, if quick { 5 } else { 1 }) {
+            if x < q {
+                let bytes = v.x(&x).strand_serialize().unwrap();
+                v.case("ser_x", vec![n(&x)], || Out::Ok(b(&bytes)));
+                let r = des_op(v, "des_x", &bytes);
+                v.h.check(r == Out::Ok(n(&x)), || format!("exponent {:x} does not round-trip on {}", x, tok));
+                if let Some(prev) = seen_x.insert(bytes.clone(), x.clone()) {
+                    v.h.check(prev == x, || format!("exponents {:x} and {:x} share an encoding on {}", prev, x, tok));
+                }
+                let bytes = C::p_raw(&x).strand_serialize().unwrap();
+                v.case("ser_p", vec![n(&x)], || Out::Ok(b(&bytes)));
+                let r = des_op(v, "des_p", &bytes);
+                v.h.check(r == Out::Ok(n(&x)), || format!("plaintext {:x} ({} bytes) does not round-trip on {}", x, (x.bits() + 7) / 8, tok));
+                let bytes = StrandVectorP::<C>(vec![C::p_raw(&x), C::p_raw(&big(0)), C::p_raw(&x)]).strand_serialize().unwrap();
+                let r = des_op(v, "des_svec_p", &bytes);
+                v.h.check(r == Out::Ok(l(vec![n(&x), n(&big(0)), n(&x)])), || format!("a plaintext vector containing {:x} does not round-trip on {}", x, tok));
+            }
+            // the square of a structured value is a member, often with a short or zero-tailed representation
+            let e = (&x * &x) % &p;
+            if e != big(0) && (x.bits() < 1030 || quick == false || x.bits() % 3 == 0) {
+                let bytes = v.e(&e).strand_serialize().unwrap();
+                v.case("ser_e", vec![n(&e)], || Out::Ok(b(&bytes)));
+                let r = des_op(v, "des_e", &bytes);
+                v.h.check(r == Out::Ok(n(&e)), || format!("element {:x} does not round-trip on {}", e, tok));
+            }
+        }
+    }
     for i in 0..reps {
         for w in honest_objects(v, i) {
             // byte-exact encoder, deterministic
@@ -303,6 +335,8 @@ pub fn run_c11<C: NatCtx>(v: &mut Env<C>) {
             vals.push(&p - &m); // a non-residue (q odd)
             vals.push(v.h.rng.below(&p));
         }
+        // integers with a special machine representation (zero limbs, single bits, every byte length)
+        vals.extend(crate::ctxs::structured_values(&p, &mut v.h.rng, 1, if quick { 5 } else { 1 }));
         for x in &vals {
             let bs = to_bytes(x);
             raw(v, &bs);
@@ -709,6 +743,7 @@ pub fn run_c14<C: NatCtx>(v: &mut Env<C>) {
         for _ in 0..(if quick { 6 } else { 80 }) {
             ms.push(v.h.rng.below(&(&q - 1u32)));
         }
+        ms.extend(crate::ctxs::structured_values(&p, &mut v.h.rng, 1, if quick { 5 } else { 1 }));
         for m in &ms {
             one(v, m, &mut seen);
         }
